@@ -263,11 +263,23 @@ pub fn cases(tier: &str, seed: u64) -> Vec<Case> {
             prev = here;
         }
         push_case(&mut v, &nested, prev, "nested-depth");
+        // (pointer-to-pointer hops add no label: a chain of any length below the 14-bit offset range is a legal way to
+        // spell a short name - hundreds and thousands of hops further down)
         let mut chain = vec![2u8, b'o', b'k', 0];  // offset 0: a name; then pointers to pointers
         let mut at = 0usize;
         for _ in 0..depth {
             let here = chain.len();
-            chain.extend_from_slice(&[0xC0, at as u8]);
+            chain.extend_from_slice(&[0xC0 | (at >> 8) as u8, at as u8]);
+            at = here;
+        }
+        push_case(&mut v, &chain, at, "chain-depth");
+    }
+    for depth in [254usize, 255, 256, 257, 300, 511, 512, 1000, 3000] {
+        let mut chain = vec![2u8, b'o', b'k', 0];
+        let mut at = 0usize;
+        for _ in 0..depth {
+            let here = chain.len();
+            chain.extend_from_slice(&[0xC0 | (at >> 8) as u8, at as u8]);
             at = here;
         }
         push_case(&mut v, &chain, at, "chain-depth");
